@@ -14,6 +14,7 @@ from sim import rng, runner, sched
 from sim.base import BaseCheck
 
 STRS = ['Ab', 'ab', 'a b', 'a  b', u'é', 'e', 'x', 'y']
+STR_PARTNER = {'Ab': 'ab', 'ab': 'Ab', 'a b': 'a  b', 'a  b': 'a b', u'é': 'e', 'e': u'é'}
 BAD_FILTERS = ['and and', '==', 'n == ', '(t1', 't1 and', '->x', '"str"', 'n === 3']
 HIST_ROWS = 56
 
@@ -135,7 +136,7 @@ class C13(BaseCheck):
     assumptions = [
         'pre-emption at source-line (sometimes opcode) granularity inside hszinc frames is finer than real GIL hand-over: every explored schedule is possible-or-finer',
         'C code (lru_cache internals, dict) is atomic, as under the GIL',
-        'expected rows come from a by-construction table and are cross-checked by evaluating every filter alone before the threads start; a filter whose solo result differs from the table is excluded (that would be C11, not C13)',
+        'expected rows come from a by-construction table; a candidate violation is confirmed by evaluating the implicated filter alone, as the first filter of a pristine forked process: if that already disagrees with the table the filter is mis-compiled whatever the history (C11, not C13) and the run is excused and counted',
         'injected stdout faults: only a silent wrong row set in a later fault-free call is a violation (DEGRADED otherwise)',
     ]
 
@@ -211,6 +212,15 @@ class C13(BaseCheck):
             seen[key] = 1
             f['rows'] = rows
             pool.append(f)
+            # deliberate near-collision partner: a text differing only in case / inner blanks / an accent
+            # inside a string literal denotes a different row
+            if kind == 'str' and f['s'] in STR_PARTNER and k.random() < 0.6 and len(pool) < size:
+                pf = {'kind': 'str', 'o': f['o'], 's': STR_PARTNER[f['s']]}
+                prow = expected_rows(spec, pf)
+                if prow and tuple(prow) not in seen:
+                    seen[tuple(prow)] = 1
+                    pf['rows'] = prow
+                    pool.append(pf)
             # near-collisions a sloppy cache key would conflate: blank and literal variants
             if k.random() < 0.3 and len(pool) < size:
                 v = dict(f)
@@ -298,6 +308,11 @@ class C13(BaseCheck):
         N = min(N, 1500)
         uses = min(1500, k.choice([2 * N, 3 * N, N + 7])) if cap is None else min(120, k.choice([2 * N + 1, 4 * N, 6 * N + 3]))
         order = k.choice(['cyclic', 'hot+scan', 'zipf', 'stride'])
+        if cap is None and k.random() < (0.25 if tier == 'quick' else 0.5):
+            # "still-cached filters keep working after any number of later compilations": a hot set kept in
+            # the as-shipped cache while up to 1500 other distinct filters are compiled (some of them twice)
+            N, order = 1500, 'hot+scan'
+            uses = k.choice([2400, 3200]) if tier == 'quick' else k.choice([3200, 6400])
         return {'class': 'history', 'knobs': {'cache': cap, 'warm': True}, 'N': N, 'uses': max(uses, 2), 'order': order,
                 'order_seed': rng.derive(run_seed, 'order') % (1 << 31), 'ops': []}
 
@@ -315,9 +330,57 @@ class C13(BaseCheck):
 
     def execute(self, case):
         gc.disable()
+        if case['class'] == 'solo':
+            return self._exec_solo(case)
         if case['class'] == 'history':
             return self._exec_history(case)
         return self._exec_threads(case)
+
+    def _exec_solo(self, case):
+        """One filter evaluated as the first filter ever used in a pristine process: the reference
+        the statement compares against."""
+        hs = self.hszinc
+        old = sys.stdout
+        sys.stdout = sched.SimStdout()
+        try:
+            g = build_grid(hs, case['grid'])
+            try:
+                rows = self._ids(g.filter(case['text'], case.get('limit', 0)))
+            except Exception as e:
+                rows = ['exc', type(e).__name__]
+        finally:
+            sys.stdout = old
+        return {'viol': None, 'digest': rng.digest(rows), 'stats': {}, 'distinct': [], 'nontrivial': False, 'steps': 1,
+                'solo_rows': rows}
+
+    def confirm(self, case, res, run_isolated):
+        """A candidate violation stands only if the implicated filter, evaluated alone as the first
+        filter of a pristine process, gives the by-construction rows.  If the solo evaluation already
+        disagrees with the table, the filter is mis-compiled whatever the history or schedule (that is
+        filter semantics, C11), and no C13 alarm is raised."""
+        v = res.get('viol')
+        solo = v.get('solo') if v else None
+        if not solo:
+            return res
+        spec = {'nrows': HIST_ROWS, 'tags': {}, 'refs': {}} if solo.get('hist') else case['grid']
+        sres = run_isolated(self, {'class': 'solo', 'grid': spec, 'text': solo['text'], 'limit': solo.get('limit', 0),
+                                   'knobs': {'warm': True}})
+        rows = sres.get('solo_rows')
+        is_exc = isinstance(rows, list) and rows[:1] == ['exc']
+        want = solo['want']
+        if want == 'exception':
+            independent = not is_exc          # the non-filter string is accepted even alone
+        elif want is None:
+            independent = is_exc              # raises even alone
+        else:
+            independent = rows != want
+        if independent:
+            res = dict(res)
+            res['viol'] = None
+            res['stats'] = dict(res.get('stats', {}))
+            res['stats']['excused.same_result_when_evaluated_alone'] = 1
+            res['nontrivial'] = False
+        return res
 
     def _ids(self, grid_or_rows):
         return [int(row['id'][1:]) for row in grid_or_rows]
@@ -363,13 +426,15 @@ class C13(BaseCheck):
                     got = self._ids(g.filter(f['text']))
                 except Exception as e:
                     viol = {'clause': 'exception', 'detail': {'use': u, 'filter': f['text'], 'exc': type(e).__name__,
-                                                              'msg': str(e)[:200], 'history': seq[max(0, u - 5):u + 1]}}
+                                                              'msg': str(e)[:200], 'history': seq[max(0, u - 5):u + 1]},
+                            'solo': {'text': f['text'], 'want': None, 'limit': 0, 'hist': True}}
                     break
                 events.append((q, len(got)))
                 if got != want:
                     other = [t['text'] for t in texts.values() if list(range(t['a'], t['b'])) == got]
                     viol = {'clause': 'wrong-rows', 'detail': {'use': u, 'filter': f['text'], 'got': got, 'want': want,
-                                                               'is_result_of': other[:1]}}
+                                                               'is_result_of': other[:1]},
+                            'solo': {'text': f['text'], 'want': want, 'limit': 0, 'hist': True}}
                     break
             compiles = sum(1 for (_, s) in out.writes if s.startswith('\nGenerate:'))
             stats['probe.compiles'] = compiles
@@ -405,21 +470,6 @@ class C13(BaseCheck):
             if knobs.get('unindexed'):
                 shared = shared[:]
                 stats['unindexed_shared_grid_runs'] = 1
-            # solo reference: every pool filter evaluated alone, first, on a private grid
-            usable = []
-            for f in pool:
-                try:
-                    solo = self._ids(build_grid(hs, spec).filter(f['text']))
-                except Exception as e:
-                    solo = 'exc:' + type(e).__name__
-                usable.append(solo == f['rows'])
-                if solo != f['rows']:
-                    stats['template_mismatch'] = stats.get('template_mismatch', 0) + 1
-            # the solo phase must not leave compiled filters behind: threads start with an empty cache
-            if hasattr(gf._filter_function, 'cache_clear'):
-                gf._filter_function.cache_clear()
-            else:
-                stats['knob_unavailable.cache_clear'] = 1
             out.writes = []
             out.n = 0
             out.fault = fault
@@ -541,26 +591,27 @@ class C13(BaseCheck):
             if viol:
                 break
             tid, oi, kind, fi, want, got = rec
-            if isinstance(fi, int) and fi >= 0 and not usable[fi]:
-                continue
             text = pool[fi]['text'] if isinstance(fi, int) and fi >= 0 else (filter_text({'kind': 'scan', 'v': (-1 - fi) % spec['nrows'], 'u': -1 - fi}) if isinstance(fi, int) else fi)
             if kind == 'bad':
                 if not (isinstance(got, tuple) and got and got[0] == 'exc'):
                     viol = {'clause': 'wrong-rows', 'detail': {'thread': tid, 'op': oi, 'kind': kind, 'filter': text,
-                                                               'why': 'a non-filter string returned rows', 'got': got}}
+                                                               'why': 'a non-filter string returned rows', 'got': got},
+                            'solo': {'text': text, 'want': 'exception', 'limit': 0}}
                 continue
             if isinstance(got, tuple) and got and got[0] == 'exc':
                 if fault_fired:
                     degraded += 1    # an injected stdout fault may surface as an exception
                     continue
                 viol = {'clause': 'exception', 'detail': {'thread': tid, 'op': oi, 'kind': kind, 'filter': text,
-                                                          'exc': got[1], 'msg': got[2]}}
+                                                          'exc': got[1], 'msg': got[2]},
+                        'solo': {'text': text, 'want': None, 'limit': 0}}
                 continue
             if got != want:
                 lim_note = None
                 viol = {'clause': 'wrong-rows', 'detail': {'thread': tid, 'op': oi, 'kind': kind, 'filter': text,
                                                            'got': got, 'want': want,
-                                                           'got_is_result_of': by_rows.get(tuple(got))}}
+                                                           'got_is_result_of': by_rows.get(tuple(got))},
+                        'solo': {'text': text, 'want': want, 'limit': len(want) if kind == 'filter' and len(want) < len(pool[fi]['rows'] if isinstance(fi, int) and fi >= 0 else want) else 0}}
         for t in sim.threads:
             if t.exc is not None and not viol:
                 raise runner.HarnessError('workload body raised: %r' % (t.exc,))
